@@ -68,8 +68,6 @@ fn plugin_parser<'a>(s: &str) -> Result<Plugin, &'a str> {
         Value,
     }
 
-    assert!(!s.is_empty());
-
     let mut plugin_path = String::new();
     let mut plugin_args = Vec::<(String, String)>::new();
 
